@@ -258,6 +258,14 @@ func init() {
 			}
 			return true
 		},
+		"vLastTimer": func(e *Engine, c *callCtx) bool {
+			if n := len(c.st.timers); n > 0 {
+				c.set(PtrV{c.st.timers[n-1], -1})
+			} else {
+				c.set(PtrV{})
+			}
+			return true
+		},
 		"vTimerCount": func(e *Engine, c *callCtx) bool {
 			c.set(e.goInt(int64(len(c.st.timers))))
 			return true
@@ -286,6 +294,7 @@ func init() {
 				if len(ch.ch.buf) < ch.ch.cap {
 					ch.ch.buf = append(ch.ch.buf, TimeV{ns: e.now(c.st)})
 				}
+				e.wakeSelectors(c.st, o.fields[0].(ChanV).obj)
 				return true
 			}
 			fv, _ := o.tm.fn.(FuncV)
